@@ -105,6 +105,7 @@ class Run:
             with open(collect_path, 'w', encoding='utf-8') as fh:
                 for key, rec in self.violations.items():
                     fh.write(json.dumps(rec, ensure_ascii=True, default=str) + '\n')
+        new, unconfirmed = confirm(new)
         for f in self.known_findings:
             n = len(matched.get(f['id'], []))
             if n:
@@ -128,6 +129,8 @@ class Run:
         cov['counters'] = dict(sorted(self.counters.items()))
         cov['known_findings_matched'] = {k: len(v) for k, v in sorted(matched.items())}
         cov['violations_new'] = len(new)
+        cov['unconfirmed_outcomes'] = [r['key'] for r in unconfirmed][:50]
+        cov['unconfirmed_count'] = len(unconfirmed)
         ev = {
             'property_id': pid, 'tier': self.tier, 'seed': self.seed,
             'level': 'model_checking', 'coverage': cov,
@@ -147,6 +150,73 @@ class Run:
               f"validated={cov.get('traces_validated_against_impl')} new_violations={len(new)} "
               f"known={sum(len(v) for v in matched.values())} wall={ev['wall_s']}s")
         return 1 if new else 0
+
+
+_CONFIRM_CODE = r"""
+import json, sys
+sys.setrecursionlimit(1000)
+from mc import env
+recs = json.load(open(sys.argv[1]))
+failing = []
+for i, code in recs:
+    ns = dict(env.NS)
+    try:
+        exec(code, ns)
+    except BaseException:
+        failing.append(i)
+print('FAILING ' + json.dumps(failing))
+"""
+
+CONFIRM_CAP = 4000
+
+
+def confirm(records):
+    """Re-executes the snippet of every new violation in fresh interpreters WITHOUT the set-order
+    seam, with the default recursion limit, under concrete PYTHONHASHSEEDs.  Only violations that
+    fail again under at least one real interpreter configuration are reported (DESIGN.md 1.3, 6.3)."""
+    if not records or os.environ.get('PREGEX_VERIF_NOCONFIRM') == '1':
+        return records, []
+    import tempfile
+    from concurrent.futures import ThreadPoolExecutor
+    pending = {i: r for i, r in enumerate(records[:CONFIRM_CAP])}
+    confirmed = {}
+    td = tempfile.mkdtemp(prefix='confirm_')
+
+    def one(seed, items):
+        path = os.path.join(td, 'recs_%d.json' % seed)
+        with open(path, 'w', encoding='utf-8') as fh:
+            json.dump(items, fh)
+        e = dict(os.environ)
+        e.update({'PYTHONHASHSEED': str(seed), 'PREGEX_VERIF_VSET': '0', 'PYTHONPATH': VERIF, 'PYTHONWARNINGS': 'ignore',
+                  'PYTHONDONTWRITEBYTECODE': '1'})
+        r = subprocess.run([sys.executable, '-c', _CONFIRM_CODE, path], capture_output=True, text=True, env=e, cwd=VERIF, timeout=1800)
+        for line in r.stdout.splitlines():
+            if line.startswith('FAILING '):
+                return seed, json.loads(line[8:])
+        raise Internal('confirmation subprocess failed: ' + r.stderr[-600:])
+    try:
+        base = 8 * int(os.environ.get('VERIF_SEED', '0') or 0)
+        rounds = [list(range(base, base + 8))] + [list(range(base + 8 * k, base + 8 * k + 8)) for k in range(1, 8)]
+        for rno, seeds in enumerate(rounds):
+            if not pending:
+                break
+            if rno > 0:
+                # only order-dependent outcomes are worth more seeds
+                if not any(r.get('order_dependent') for r in pending.values()):
+                    break
+            items = [(i, r['code']) for i, r in pending.items() if rno == 0 or r.get('order_dependent')]
+            with ThreadPoolExecutor(8) as ex:
+                for seed, failing in ex.map(lambda s: one(s, items), seeds):
+                    for i in failing:
+                        if i in pending:
+                            rec = pending.pop(i)
+                            rec['hashseed'] = seed
+                            confirmed[i] = rec
+    finally:
+        import shutil
+        shutil.rmtree(td, ignore_errors=True)
+    out = [confirmed[i] for i in sorted(confirmed)] + records[CONFIRM_CAP:]
+    return out, [pending[i] for i in sorted(pending)]
 
 
 def validate_evidence(path):
@@ -171,6 +241,21 @@ def chunks(seq, n):
     return [seq[i:i + n] for i in range(0, len(seq), n)]
 
 
+class _Guard:
+    """runs fn in the worker and turns any exception into a picklable marker (an exception whose
+    constructor needs arguments cannot cross the pipe and would hang the pool)"""
+
+    def __init__(self, fn):
+        self.fn = fn
+
+    def __call__(self, task):
+        try:
+            return ('ok', self.fn(task))
+        except BaseException:  # noqa: BLE001
+            import traceback
+            return ('err', traceback.format_exc()[-3000:])
+
+
 def pmap(fn, tasks, procs=None):
     tasks = list(tasks)
     procs = procs or NPROC
@@ -178,7 +263,13 @@ def pmap(fn, tasks, procs=None):
         return [fn(t) for t in tasks]
     ctx = mp.get_context('fork')
     with ctx.Pool(min(procs, len(tasks))) as pool:
-        return pool.map(fn, tasks, chunksize=1)
+        res = pool.map(_Guard(fn), tasks, chunksize=1)
+    out = []
+    for kind, val in res:
+        if kind == 'err':
+            raise Internal('worker failed:\n' + val)
+        out.append(val)
+    return out
 
 
 def run_py(code, hashseed=None, timeout=600, args=()):
